@@ -56,7 +56,7 @@ LEVEL = {
            "interleaved generators, threads, hash seeds) and a static scan for mutation of shared objects. Partial.",
     "C18": "The property is FALSE on the current code; no theorem can close it. Proved: three kernel-checked counterexamples "
            "(C18_counterexample_prefix/_datatype/_name: the writer succeeds, the reference decoder accepts, the data differ) "
-           "and — pending in C03.lean — the positive part (a statement that fits never corrupts). The check replays overflow "
+           "and the positive part C03_triples/_quads/_graphs (= C18_partial: when every statement fits the tables the output decodes to the input). The check replays overflow "
            "cases on the real code; every failure must match the known finding's signature (the model predicts the same bytes "
            "AND the statement does not fit), anything else is a new violation. Partial.",
     "C20": "The property is FALSE on the current code. Proved: C20_counterexample (kernel-checked: after a rejected statement the "
@@ -103,4 +103,11 @@ LEVEL = {
            "and duplicates, xsd:string ≡ plain. Composition of C03 (valid + denotes), C04 (decoder = denotation), C06, C07. "
            "Frames level; the protobuf wire layer and the delimiting detection are covered by the wire round-trip and C08 "
            "theorems when present, and by the byte-exact correspondence.",
+    "C19": "Theorems C19_triples / C19_quads / C19_graphs: for every constructible stream and every sequence of well-formed, "
+           "fitting statements (on which Python == and the format's notion of equal terms coincide: no xsd:string-typed "
+           "literal), the audit of the written rows against the reference decoder's state is all zeros — no entry for a string "
+           "resident in that table (exact writer/reader mirror incl. the converse direction), no present term equal to the "
+           "repeated term of its slot, no explicit id where the zero form applies, no graph closed and reopened under the same "
+           "name. C19_each_name_once: with a name table that never evicts, no name is sent twice. The size claim follows "
+           "field-wise (omitted fields cost 0 bytes) and is not stated separately.",
 }
